@@ -46,7 +46,7 @@ def run(ctx):
     missing = [m for m, stem in MODELS if not _have(stem)]
     if missing:
         ctx.cov["notes"].append({"models_without_specification": missing})
-    nwalks = 2500 if thorough else 300
+    nwalks = 15000 if thorough else 300
     maxops = 50 if thorough else 30
 
     # 1. model-check every specification (a failure here is a model problem: inconclusive)
@@ -87,12 +87,9 @@ def run(ctx):
         raise vf.Inconclusive("harness models failed rc=%d:\n%s" % (p.returncode, p.stdout[-4000:]))
 
     # 4. every logged line against the step functions
-    obs = {}
     for m, stem in models:
-        f = os.path.join(outdir, m + ".ndjson")
-        if not os.path.exists(f):
+        if not os.path.exists(os.path.join(outdir, m + ".ndjson")):
             raise vf.Inconclusive("harness wrote no observations for model %s" % m)
-        obs[m] = ctx.read_ndjson(f)
 
     def trace(m, stem):
         return lambda: ctx.tlc(stem + "Trace", "TraitTrace.cfg", workers=1, timeout=3000,
@@ -100,7 +97,7 @@ def run(ctx):
     traces = _parallel([(m, trace(m, stem)) for m, stem in models])
     per_model = {}
     for m, stem in models:
-        tr, lines = traces[m], obs[m]
+        tr, lines = traces[m], ctx.read_ndjson(os.path.join(outdir, m + ".ndjson"))   # one model at a time (memory)
         if not any(l.startswith('"CHECKED %d"' % len(lines)) for l in tr.out.splitlines()):
             raise vf.Inconclusive("trace check of %s did not cover all %d observations:\n%s" %
                                   (m, len(lines), tr.out[-3000:]))
